@@ -43,7 +43,7 @@ ASSUMPTIONS = [
 REQUIRED_PROBES = {"C20": ["probe_canon_equal_cross_process", "probe_canon_equal_other_supply_mode",
                            "probe_neighbour_pairs", "probe_rehash_after_restart",
                            "fault_clock_jump", "fault_annotation_attach_detach"]}
-BUDGETS = {"C20": dict(quick_runs=160, thorough_budget=900, selftest_seeds=8,
+BUDGETS = {"C20": dict(quick_runs=280, thorough_budget=900, selftest_seeds=8,
                        technique="deterministic simulation: seeded cluster of fresh interpreters (hash seed, clock, import order, pre-history, restarts), all-pairs hash/structure relation")}
 
 BASES = [
